@@ -14,7 +14,7 @@ META = {
         "has a ticker rooted at to_uppercase, in both the DSL consumer and the JSON deserializer. R5 (index space): the tables "
         "shared by all securities (30-day claims, cost offsets) are keyed by a line's position in the whole list; an enumerate "
         "index used as such a key must be taken before any stage that drops elements (filter/skip/skip_while/rev). Does not decide that "
-        "report(all) is the combination of the per-security reports."),
+        "report(all) is the combination of the per-security reports. R1 also: every quantity map of the matcher has a key type that tells securities apart (a String component or the global line index). R4 also: the consumer of every grammar rule with a ticker child obtains it through the ticker consumer."),
     "trusted_base": ["str::to_uppercase; HashMap keyed lookup", "rustc MIR + resolution"],
     "engines": ["mirfacts", "rules", "posctl"],
 }
